@@ -172,3 +172,142 @@ theorem pTor_mul_d1 (d1 : Matrix N M R) (P1 : Matrix N N R) (Q1 Q1i : Matrix M M
   · intro h; exact absurd (Finset.mem_univ _) h
 
 end Yuiv.C07
+
+/-! ### completeness: a cycle whose coordinates vanish (modulo the orders) is a boundary -/
+
+namespace Yuiv.C07
+open Matrix
+
+section inj
+variable {R : Type*} [CommRing R] [NoZeroDivisors R]
+variable {M N K A B B2 F T : Type*}
+variable [Fintype M] [Fintype N] [Fintype K] [Fintype A] [Fintype B] [Fintype B2] [Fintype F] [Fintype T]
+variable [DecidableEq M] [DecidableEq N] [DecidableEq K] [DecidableEq A] [DecidableEq B] [DecidableEq B2]
+variable [DecidableEq F] [DecidableEq T]
+
+/-- columns `iA a` of `d2·P1⁻¹` vanish (same argument as `d2_mul_qTor`, for the whole image part) -/
+theorem d2P1i_col_zero (d1 : Matrix N M R) (d2 : Matrix K N R) (P1 P1i : Matrix N N R)
+    (Q1 : Matrix M M R) (S1 : Matrix N M R) (iA : A → N) (cA : A → M) (α : A → R)
+    (hdd : d2 * d1 = 0) (hS1 : S1 = P1 * d1 * Q1) (h1 : P1i * P1 = 1)
+    (hcol : ∀ a i, S1 i (cA a) = if i = iA a then α a else 0) (ha : ∀ a, α a ≠ 0) (k : K) (a : A) :
+    (d2 * P1i) k (iA a) = 0 := by
+  have := congrFun (congrFun (d2_mul_qTor d1 d2 P1 P1i Q1 S1 iA cA α hdd hS1 h1 hcol ha) k) a
+  simpa [qTor, Matrix.mul_apply] using this
+
+/-- **completeness of the coordinates.**  With the full SNF specification (`eN : A ⊕ B ≃ N` splits the rows of
+`S1` into the non-zero diagonal part `A` and the zero part `B`; `eB : B2 ⊕ F ≃ B` splits the columns of `S2`
+likewise; outside the torsion block `jT : T → A` the diagonal entries of `S1` are units): a cycle `z` whose free
+coordinates vanish and whose torsion coordinates are divisible by the orders is a boundary. -/
+theorem cycle_with_zero_coords_is_boundary
+    (d1 : Matrix N M R) (d2 : Matrix K N R) (P1 P1i : Matrix N N R) (Q1 : Matrix M M R) (S1 : Matrix N M R)
+    (P2 : Matrix K K R) (Q2 Q2i : Matrix B B R) (S2 : Matrix K B R)
+    (eN : A ⊕ B ≃ N) (eB : B2 ⊕ F ≃ B) (jT : T → A) (cA : A → M) (rB : B2 → K) (α : A → R) (β : B2 → R)
+    (hdd : d2 * d1 = 0)
+    (hS1 : S1 = P1 * d1 * Q1) (hP1 : P1i * P1 = 1)
+    (hrowA : ∀ a j, S1 (eN (Sum.inl a)) j = if j = cA a then α a else 0)
+    (hcolA : ∀ a i, S1 i (cA a) = if i = eN (Sum.inl a) then α a else 0)
+    (hrowB : ∀ b j, S1 (eN (Sum.inr b)) j = 0)
+    (hα : ∀ a, α a ≠ 0) (hunit : ∀ a, (∃ t, a = jT t) ∨ IsUnit (α a))
+    (hS2 : S2 = P2 * d2' d2 P1i (fun b => eN (Sum.inr b)) * Q2) (hQ2 : Q2 * Q2i = 1)
+    (hrow2 : ∀ b j, S2 (rB b) j = if j = eB (Sum.inl b) then β b else 0) (hβ : ∀ b, β b ≠ 0)
+    (z : N → R) (hz : d2 *ᵥ z = 0)
+    (hfree : pFree P1 Q2i (fun b => eN (Sum.inr b)) (fun f => eB (Sum.inr f)) *ᵥ z = 0)
+    (htor : ∀ t, α (jT t) ∣ (pTor P1 (fun t => eN (Sum.inl (jT t))) *ᵥ z) t) :
+    ∃ x : M → R, d1 *ᵥ x = z := by
+  set iA : A → N := fun a => eN (Sum.inl a) with hiA
+  set iB : B → N := fun b => eN (Sum.inr b) with hiB
+  set y : N → R := P1 *ᵥ z with hy
+  have hzy : z = P1i *ᵥ y := by rw [hy, Matrix.mulVec_mulVec, hP1, Matrix.one_mulVec]
+  set yB : B → R := fun b => y (iB b) with hyB
+  -- d2' yB = 0
+  have h2' : d2' d2 P1i iB *ᵥ yB = 0 := by
+    have : d2 *ᵥ z = (d2 * P1i) *ᵥ y := by rw [hzy, Matrix.mulVec_mulVec]
+    rw [this] at hz
+    ext k
+    have hk := congrFun hz k
+    simp only [Matrix.mulVec, dotProduct, Pi.zero_apply] at hk ⊢
+    rw [← Equiv.sum_comp eN, Fintype.sum_sum_type] at hk
+    have hA : ∑ a : A, (d2 * P1i) k (eN (Sum.inl a)) * y (eN (Sum.inl a)) = 0 := by
+      apply Finset.sum_eq_zero; intro a _
+      rw [d2P1i_col_zero d1 d2 P1 P1i Q1 S1 iA cA α hdd hS1 hP1 hcolA hα k a, zero_mul]
+    rw [hA, zero_add] at hk
+    simpa [d2', Matrix.mul_apply, yB, iB] using hk
+  -- w = Q2⁻¹ yB vanishes
+  set w : B → R := Q2i *ᵥ yB with hw
+  have hyw : yB = Q2 *ᵥ w := by rw [hw, Matrix.mulVec_mulVec, hQ2, Matrix.one_mulVec]
+  have hS2w : S2 *ᵥ w = 0 := by
+    rw [hS2, ← Matrix.mulVec_mulVec, ← Matrix.mulVec_mulVec, ← hyw, h2', Matrix.mulVec_zero]
+  have hw0 : w = 0 := by
+    ext b
+    obtain ⟨s, rfl⟩ := eB.surjective b
+    cases s with
+    | inl b2 =>
+      have := congrFun hS2w (rB b2)
+      simp only [Matrix.mulVec, dotProduct, hrow2, Pi.zero_apply] at this
+      rw [Finset.sum_eq_single (eB (Sum.inl b2))] at this
+      · simp only [if_true] at this
+        exact (mul_eq_zero.mp this).resolve_left (hβ b2)
+      · intro c _ hc; simp [hc]
+      · intro h; exact absurd (Finset.mem_univ _) h
+    | inr f =>
+      have := congrFun hfree f
+      simp only [pFree, Pi.zero_apply] at this
+      rw [← Matrix.mulVec_mulVec] at this
+      have e : (P1.submatrix iB id) *ᵥ z = yB := by
+        ext b; simp [Matrix.mulVec, dotProduct, yB, y]
+      rw [e] at this
+      simpa [Matrix.mulVec, dotProduct, w] using this
+  have hyB0 : ∀ b, y (iB b) = 0 := by
+    intro b
+    have := congrFun hyw b
+    rw [hw0, Matrix.mulVec_zero] at this
+    exact this
+  -- the image part is divisible by the diagonal
+  have hdiv : ∀ a, α a ∣ y (iA a) := by
+    intro a
+    rcases hunit a with ⟨t, rfl⟩ | hu
+    · have := htor t
+      simpa [pTor, Matrix.mulVec, dotProduct, y, iA] using this
+    · exact hu.dvd
+  choose c hc using hdiv
+  have hcA : Function.Injective cA := by
+    intro a a' h
+    have h1 := hrowA a (cA a')
+    have h2 := hcolA a' (eN (Sum.inl a))
+    rw [if_pos h.symm] at h1
+    rw [h1] at h2
+    by_cases he : eN (Sum.inl a) = eN (Sum.inl a')
+    · exact Sum.inl_injective (eN.injective he)
+    · rw [if_neg he] at h2; exact absurd h2 (hα a)
+  -- x' has entry c a at column cA a
+  let x' : M → R := fun j => ∑ a, if j = cA a then c a else 0
+  have hx' : ∀ a, x' (cA a) = c a := by
+    intro a
+    simp only [x']
+    rw [Finset.sum_eq_single a]
+    · simp
+    · intro b _ hb
+      have : cA a ≠ cA b := fun h => hb (hcA h).symm
+      simp [this]
+    · intro h; exact absurd (Finset.mem_univ _) h
+  have hSx : S1 *ᵥ x' = y := by
+    ext i
+    obtain ⟨s, rfl⟩ := eN.surjective i
+    cases s with
+    | inl a =>
+      simp only [Matrix.mulVec, dotProduct, hrowA]
+      rw [Finset.sum_eq_single (cA a)]
+      · simp only [if_true]; rw [hx' a]; exact (hc a).symm
+      · intro j _ hj; simp [hj]
+      · intro h; exact absurd (Finset.mem_univ _) h
+    | inr b =>
+      simp only [Matrix.mulVec, dotProduct, hrowB, zero_mul, Finset.sum_const_zero]
+      exact (hyB0 b).symm
+  refine ⟨Q1 *ᵥ x', ?_⟩
+  rw [hzy, ← hSx, hS1, Matrix.mulVec_mulVec, Matrix.mulVec_mulVec]
+  congr 1
+  calc d1 * Q1 = (P1i * P1) * d1 * Q1 := by rw [hP1, Matrix.one_mul]
+    _ = P1i * (P1 * d1 * Q1) := by simp only [Matrix.mul_assoc]
+
+end inj
+end Yuiv.C07
